@@ -37,48 +37,33 @@ def _cap_domain() -> List[int]:
 def rule_r1_prefix(ctx: Ctx) -> None:
     repo = ctx.repo
     ctx.rule("C02.R1", "implicit array length prefix: smallest of 8/16/32/64 bits able to hold the capacity, truncated unsigned", min_instances=2)
+    from ..absint import Recorder
+    from ..codec import isa_of
+    from . import c05 as M
+    from .c15 import _prop
+
     c = ctx.cls(SER + "_array.VariableLengthArrayType")
-    stmts, chain = flatten_init(repo, c, node_of=ctx.inl)
-    paths = [p for p in PathEnumerator().run(stmts) if p.kind == "fall"]
-    if not paths:
-        raise AnalysisError("VariableLengthArrayType.__init__: no completing path")
-    init = chain[0]
-    exprs = set()
-    call_nodes = []
-    for p in paths:
-        v = p.env.get("self._length_field_type")
-        if v is None:
-            # find whichever attribute the accessor returns
-            acc = trivial_property_expr(repo, c, "length_field_type")
-            if acc is None or dotted(acc) is None or dotted(acc) not in p.env:
-                raise AnalysisError("VariableLengthArrayType: cannot find the stored length field type")
-            v = p.env[dotted(acc)]  # type: ignore
-        if not (isinstance(v, ast.Call) and len(v.args) == 2):
-            raise AnalysisError("length field type is not constructed in place: %s" % norm(v))
-        exprs.add(norm(v))
-        call_nodes.append(v)
-    if len(exprs) != 1:
-        raise AnalysisError("length field type differs between paths")
-    call = call_nodes[0]
-    k = repo.resolve_expr(init.module, call.func, c)
-    width_expr, cm_expr = call.args
+    init = repo.lookup_method(c, "__init__")
+    where = init.where() if init else c.module.relpath
     bad = []
+    kinds = set()
     dom = _cap_domain()
     for cap in dom:
         for al in (1, 8):
-            f = Folder({"capacity": cap, "element_type.alignment_requirement": al, "self.alignment_requirement": al}, repo, init.module, c, enum_hook(ctx, init.module, c))
-            try:
-                w = f.fold(width_expr)
-            except Unfoldable as ex:
-                raise AnalysisError("cannot fold the prefix width %s: %s" % (norm(width_expr), ex))
+            et = Sym(bit_length_set=TBls.var("E", al), alignment_requirement=al, _isa_=isa_of(ctx, SER + "_primitive.UnsignedIntegerType"), _kind_="UnsignedIntegerType", _check_aggregation=Recorder("_check_aggregation", None), extent=64)
+            o = M._construct_outcome(ctx, c, et, cap)
+            if isinstance(o, str):
+                raise AnalysisError("VariableLengthArrayType(element, %d) raised %s over abstract arguments" % (cap, o))
+            lt = _prop(ctx, o, "length_field_type")
+            w = getattr(lt, "bit_length", None)
+            kinds.add((getattr(lt, "kind", getattr(lt, "_kind_", None)), getattr(lt, "cast_mode", None)))
             ctx.count()
             want = spec.smallest_standard_width(cap)
             if w != want:
                 bad.append({"capacity": cap, "element_alignment": al, "found": w, "expected": want})
-    ctx.check(not bad, init.short, "length prefix width", "prefix width must be the smallest of 8/16/32/64 holding the capacity (%d capacities x 2 alignments)" % len(dom), init.where(), bad[:6])
-    cm = Folder({}, repo, init.module, c, enum_hook(ctx, init.module, c)).fold(cm_expr)
-    ctx.check(isinstance(k, ClassInfo) and k.name == "UnsignedIntegerType" and cm == "CastMode.TRUNCATED", init.short, "length prefix type", "the prefix is a truncated unsigned integer", init.where(), {"class": getattr(k, "name", None), "cast_mode": cm})
-    ctx.sample({"rule": "C02.R1", "expr": norm(width_expr)[:200], "rows": {str(x): spec.smallest_standard_width(x) for x in (255, 256, 65535, 65536)}})
+    ctx.check(not bad, c.short + ".__init__", "length prefix width", "prefix width must be the smallest of 8/16/32/64 holding the capacity (%d capacities x 2 alignments)" % len(dom), where, bad[:6])
+    ctx.check(kinds == {("UnsignedIntegerType", "CastMode.TRUNCATED")}, c.short + ".__init__", "length prefix type", "the prefix is a truncated unsigned integer", where, sorted(map(str, kinds)))
+    ctx.sample({"rule": "C02.R1", "rows": {str(x): spec.smallest_standard_width(x) for x in (255, 256, 65535, 65536)}})
 
 
 class AbsSeq(Abstract):
@@ -126,37 +111,29 @@ def rule_r2_tag(ctx: Ctx) -> None:
             if w != want:
                 bad.append({"variants": n, "alignment": al, "found": w, "expected": want})
     ctx.check(not bad, fn.short, "tag width", "tag width must be the smallest of 8/16/32/64 holding index n-1 (%d variant counts)" % len(ns), fn.where(), bad[:6])
-    # the stored tag type: a truncated unsigned integer whose width is the tag computation over the types of all variants
-    stmts, chain = flatten_init(repo, u, node_of=ctx.inl)
-    init = chain[0]
-    acc = trivial_property_expr(repo, u, "tag_field_type")
-    if acc is None or dotted(acc) is None:
-        raise AnalysisError("UnionType.tag_field_type is not a field accessor")
-    vals = []
-    for p in PathEnumerator(opaque={"self.fields", "self._fields"}).run(stmts):
-        if p.kind == "fall":
-            v = p.env.get(dotted(acc))  # type: ignore
-            if v is None:
-                raise AnalysisError("UnionType.__init__ does not store %s on a completing path" % dotted(acc))
-            vals.append(v)
-    if not vals:
-        raise AnalysisError("UnionType.__init__: no completing path")
-    good = True
-    detail = None
-    for v in vals:
-        k = repo.resolve_expr(init.module, v.func, u) if isinstance(v, ast.Call) else None
-        ok = isinstance(v, ast.Call) and isinstance(k, ClassInfo) and k.name == "UnsignedIntegerType" and len(v.args) == 2
-        if ok:
-            a0 = v.args[0]
-            try:
-                cm = Folder({}, repo, init.module, u, enum_hook(ctx, init.module, u)).fold(v.args[1])
-            except Unfoldable:
-                cm = None
-            # the width argument: the tag computation applied to the data types of all fields, in order
-            ok = cm == "CastMode.TRUNCATED" and isinstance(a0, ast.Call) and (dotted(a0.func) or "").endswith("_compute_tag_bit_length") and len(a0.args) == 1 and _is_types_of_fields(a0.args[0])
-        detail = norm(v)
-        good = good and ok
-    ctx.check(good, init.short, "tag field type", "the tag is a truncated unsigned integer whose width is computed over the types of all variants", init.where(), detail)
+    # the stored tag type: unions are constructed over n fields mixed with constants and paddings; the tag must be a truncated
+    # unsigned integer as wide as the tag computation says for n *variants* (constants are not variants)
+    from ..codec import isa_of
+    from . import c05 as M
+    from .c15 import _prop
+
+    init = repo.lookup_method(u, "__init__")
+    where = init.where() if init else u.module.relpath
+    bad = []
+    kinds = set()
+    for n in (2, 3, 255, 256, 257):
+        for n_const in (0, 1, 300):
+            attrs = [M.attribute_sym(ctx, "Field", "f%d" % i) for i in range(n)]
+            consts = [M.attribute_sym(ctx, "Constant", "K%d" % i) for i in range(n_const)]
+            o = M.structure(ctx, attributes=consts[: n_const // 2] + attrs + consts[n_const // 2 :], kind="UnionType")
+            if isinstance(o, str):
+                raise AnalysisError("UnionType over %d fields and %d constants raised %s" % (n, n_const, o))
+            t = _prop(ctx, o, "tag_field_type")
+            kinds.add((getattr(t, "kind", getattr(t, "_kind_", None)), getattr(t, "cast_mode", None)))
+            ctx.count()
+            if getattr(t, "bit_length", None) != spec.smallest_standard_width(n - 1):
+                bad.append({"variants": n, "constants": n_const, "found": getattr(t, "bit_length", None), "expected": spec.smallest_standard_width(n - 1)})
+    ctx.check(not bad and kinds == {("UnsignedIntegerType", "CastMode.TRUNCATED")}, u.short + ".__init__", "tag field type", "the tag is a truncated unsigned integer whose width is computed over the types of all variants", where, {"widths": bad[:4], "kinds": sorted(map(str, kinds))})
 
 
 def _is_types_of_fields(e: ast.AST) -> bool:
